@@ -56,3 +56,7 @@ mod verifiers;
 // (vault_ex: feature vaultstub, webauthn_ex: feature utf8stub)
 #[cfg(kani)]
 mod examples;
+// C20 capacity limits decided AT the limit: sub-modules gated on the features of their own profiles (lim_*: vectors of
+// MAX+1 elements, traphook)
+#[cfg(all(kani, feature = "traphook"))]
+mod limits;
